@@ -86,7 +86,8 @@ def main():
                '`/repo`. After every batch of changes to the engine or the rules the corpus is re-run\n'
                '(`tools/regress.py`); the table shows the last run of each seed (the last pass over all seeds of\n'
                'rounds 1-4 preceded the final additions to C14, C15, C18 and C20, which were then run on the\n'
-               'seeds they concern, on rounds 5-6 and on every refactor). "Target check" says whether the check of\n'
+               'seeds they concern, on rounds 5-6 and on every refactor; the seeds of round 7 - ids s7, s8 and\n'
+               '`C17_s5`, `C17_s6` - were run against all twenty checks with the rules of the last session). "Target check" says whether the check of\n'
                'the property the author aimed at reports a violation; "no verdict" means that it ended with\n'
                '`ANALYSIS-BROKEN` (exit 2) - typically because the change makes one machine write the other\'s\n'
                'fields, which C11 reports and which voids the per-machine analysis of the others (8.1).\n'
@@ -135,7 +136,16 @@ list start, C08 branches on variable bytes, C15 output-only livelocks (lexicogra
 (transducer: a wrong enumerator in one branch left bytes of write-only strings undecoded), C05
 `no-wrap`, C14 `release-once` for the event machine, C18 `hold-while-parked`, C02 implicit-write
 gate, C17 `no-self-deadlock`, C03 var-cursor obligation and ring ranges, C19 `order` (`var_num >= 1`),
-the interpreted environment actions and the separation side-condition (8.1). Reports that were
+the interpreted environment actions and the separation side-condition (8.1). Round 7 (twenty more
+seeds for C01, C04, C06, C07, C10, C12, C13, C15, C17, C19): four changes used syntax or library
+functions the unit does not contain (`sizeof`, pointer `++`, `strcspn`) and every check ended
+without a verdict; the engine was extended (8.1) and all four are now reported (`C04_s8`, `C19_s7`,
+`C19_s8` by the target check, `C07_s8` by C05 `decoded` and C03). `C17_s5` (check-then-act across two
+critical sections) and `C17_s6` (return with the lock held) were reported by C16 only: C17 `atomic`
+and `released` were added. `C19_s7` led to the `snprintf` clause of C19 `no-truncation`, placed before
+the table extraction, and to the summary "snprintf terminates a local array" (without it C03
+reported the following `strlen` for a wrong reason). C07 `identity` was added on our own initiative
+(hand-written mutant `load - 1` in `format_int_decimal`). Reports that were
 consequences of a wrong model rather than of the change (C01, C10, C15, C20 on `C18_s4`; C04 on
 `C07_s3`; C06 on `C01_s2`; C03 on `C05_s3`) disappeared with those corrections.
 """
